@@ -129,7 +129,7 @@ const SECS_A: [i64; 8] = [0, 1, 59, 60, 3599, 3600, 43199, 86399];
 pub fn run(ctx: &Ctx) -> Outcome {
     let mut out = Outcome::new(
         "Timestamps are (a) every day of the 400-year cycle x fixed+random cycle indices x 8 fixed + 2 random seconds of day, (b) every second of 8 chosen days, \
-         (c, thorough) every cycle index x 4 days, (d) range/integer boundaries, (e) proptest mixture (uniform i64, uniform in range, cycle/day/second construction, boundaries) x arbitrary ns. \
+         (c') EVERY 400-year cycle index x 1 March of its four century years and of a year rotating with the index, (c, thorough) every cycle index x 4 further days, (d) range/integer boundaries, (e) proptest mixture (uniform i64, uniform in range, cycle/day/second construction, boundaries) x arbitrary ns. \
          Non-trivial: Feb 28/29, Mar 1, Dec 31, Jan 1, year multiple of 100, negative t off a day boundary, or within 2 days of either end of the supported range (both sides). \
          Enumerated cases are distinct by construction; random ones are counted by distinct hash of (t, ns).",
     );
@@ -203,6 +203,37 @@ pub fn run(ctx: &Ctx) -> Outcome {
     out.absorb_all(rs);
     if out.failure.is_some() {
         return out;
+    }
+    // (c') every cycle index (all ~10.7 million 400-year cycles of the i32 year range) x 1 March of the three non-leap century years, of the
+    // leap century year and of a year that rotates through the cycle with the index, x {00:00:00, a second rotating with the index}:
+    // a shortcut that is valid only for a band of years (a "fast path") cannot hide between the sampled cycles
+    {
+        let n = 256u64;
+        let span = (khi - klo + 1) as u64;
+        let mar1: Vec<i64> = (0..400).map(|r| cal::days_from_civil(1970 + r, 3, 1)).collect();
+        let mar1 = &mar1;
+        let rs = par_shards(n, |shard, st| {
+            let lo = klo + (span * shard / n) as i64;
+            let hi = klo + (span * (shard + 1) / n) as i64;
+            for k in lo..hi {
+                let rot = cal::fmod(k, 400) as usize;
+                for (i, r) in [130usize, 230, 330, 30, rot].into_iter().enumerate() {
+                    let s = if i == 4 { cal::fmod(k * 7919, 86400) } else { 0 };
+                    let t = (k * gens::DAYS_400Y + mar1[r]) as i128 * 86400 + s as i128;
+                    if t < i64::MIN as i128 || t > i64::MAX as i128 {
+                        continue;
+                    }
+                    let case = TsCase { t: t as i64, ns: 1 };
+                    check_enum("ts", &case, st, |c, st| check_ts(c, st, true))?;
+                }
+            }
+            st.class_n("cycle_indices_swept", (hi - lo) as u64);
+            Ok(())
+        });
+        out.absorb_all(rs);
+        if out.failure.is_some() {
+            return out;
+        }
     }
     // (c) thorough: every cycle index x {first day, last day, 29 Feb of the 400-multiple year, a random day} x 2 seconds
     if ctx.tier == Tier::Thorough {
